@@ -386,6 +386,14 @@ class CertProperty:
                 progs.append({'name': 'emptyalt%d' % k, 'modes': [{'name': 'M', 'patterns': pats, 'transitions': []}],
                               'inputs': ['b ab cb', 'xb xab c ca', 'aacb']})
                 k += 1
+        # lookahead automata (compiled one pattern at a time) whose pattern ENDS in an optional item: the accepting state
+        # of the Thompson NFA is then not the state created last
+        for k, la in enumerate(['ab?', 'a{1,2}', 'a(bc)?', 'ab?c?', 'a[bc]{0,2}', 'a(b|c?)', 'ab{2,3}', '(a|b)c?', 'a+b?', 'a(b?c)?']):
+            if tier == 'quick' and k % 2 and k > 4:
+                continue
+            pats = [{'p': 'x', 't': 7, 'la': {'pos': k % 3 != 2, 'p': la}}, {'p': 'x', 't': 9}, {'p': '[abc]', 't': 8}]
+            progs.append({'name': 'laopt%d' % k, 'modes': [{'name': 'M', 'patterns': pats, 'transitions': []}],
+                          'inputs': ['xac xab xa', 'xaa xabc xbc x']})
         # alternations that list an alternative twice among alternatives sharing prefixes (keyword lists written by
         # hand or generated): duplicate branches give the subset construction identical NFA paths and the minimizer
         # groups with parallel edges
